@@ -22,6 +22,7 @@ EXPLANATION = (
     "parameter type is the last writer over inherited names."
     " (R5) inherited declarations are seen; (R6) a parameterised class hands its arguments to its generic base by position, paired with the variables of its own class; (R7) dictionary literals are typed exactly when their keys can be dataclass fields; (R8) a repeated key has the type of its last entry; (R9) the base a class inherits its parameters from is its first parameterised base other than Generic[..]; (R10) an unparameterised subclass is followed through what it inherits before type variables are given up."
     " (R12/R13) the iterable test does not consult the element type; the result of a nested collection operator derives from the collection method's call."
+    " (R14) the MRO walk of get_method_and_class is ended only by a class that has a different attribute of that name, not by one that has none."
 )
 NOT_DECIDED = "the type-variable algebra of util_types.py over arbitrary class models (it manipulates runtime typing objects whose structure is not in this repository's source)."
 
